@@ -52,6 +52,45 @@ Qed.
 Lemma chain_supp G : forall f cs, supp f cs -> supp (chain_apply G f) (chain_out G cs).
 Proof. induction G as [|t G IH]; intros f cs H; cbn; [exact H|]. apply IH. apply tr_supp; auto. Qed.
 
+(* the keys Transformation.__call__ returns support the transformed data as well *)
+Lemma cdisj_not_in data ins k : cdisj data ins = true -> cmem k ins = true -> cmem k data = false.
+Proof.
+  unfold cdisj. intros H K. destruct (cmem k data) eqn:E; [|reflexivity].
+  unfold cmem in E. apply existsb_exists in E as [x [Hx Ex]]. apply N.eqb_eq in Ex; subst x.
+  rewrite forallb_forall in H. specialize (H k Hx). rewrite K in H. discriminate.
+Qed.
+Lemma dot_none_head row vs : dot row (None :: vs) = None.
+Proof. destruct row; reflexivity. Qed.
+Lemma tr_call_supp t f data ks : tr_callk t data = Some ks -> supp f data -> supp (tr_apply t f) ks.
+Proof.
+  intros K H. destruct t as [m|m|m|ins outs mat]; cbn [tr_callk] in K.
+  - injection K as <-. apply (tr_supp (TOffset m)); auto.
+  - injection K as <-. apply (tr_supp (TScale m)); auto.
+  - injection K as <-. apply (tr_supp (TParallel m)); auto.
+  - destruct ins as [|i0 ins].
+    + destruct (csub [] data); [|discriminate]. injection K as <-. apply (tr_supp (TLinear [] outs mat)); auto.
+    + destruct (cdisj data (i0 :: ins)) eqn:D.
+      * injection K as <-. intros c Hc. cbn [tr_apply].
+        assert (F0 : f i0 = None).
+        { apply H. apply (cdisj_not_in _ _ _ D). cbn. rewrite N.eqb_refl. reflexivity. }
+        destruct (index_of c outs).
+        -- cbn [map]. rewrite F0. apply dot_none_head.
+        -- destruct (cmem c (i0 :: ins)); [reflexivity|]. apply H; auto.
+      * destruct (csub (i0 :: ins) data); [|discriminate]. injection K as <-.
+        apply (tr_supp (TLinear (i0 :: ins) outs mat)); auto.
+Qed.
+Lemma chain_call_supp G : forall f data ks, chain_callk G data = Some ks -> supp f data -> supp (chain_apply G f) ks.
+Proof.
+  induction G as [|t G IH]; intros f data ks K H; cbn in *.
+  - injection K as <-. exact H.
+  - destruct (tr_callk t data) as [k1|] eqn:E; [|discriminate]. cbn in K. apply (IH _ k1); auto.
+    apply (tr_call_supp t f data); auto.
+Qed.
+
+Lemma linear_absent_forwards ins outs mat data : ins <> [] -> cdisj data ins = true ->
+  tr_callk (TLinear ins outs mat) data = Some data.
+Proof. intros H D. destruct ins; [congruence|]. cbn [tr_callk]. rewrite D. reflexivity. Qed.
+
 Lemma dlook_supp vals : supp (dlook vals) (map fst vals).
 Proof. intros c H. unfold dlook. rewrite alookup_none_cmem; auto. Qed.
 Lemma dlook_map (g : chan -> oq) L c : dlook (map (fun k => (k, g k)) L) c = if cmem c L then g c else None.
@@ -64,12 +103,12 @@ Lemma from_transformation_sample w X c t :
   usample (from_transformation w X) c t = chain_apply X (fun c' => usample w c' t) c.
 Proof.
   unfold from_transformation. destruct (cvd w) as [vals|] eqn:E; [|reflexivity].
-  destruct (chain_callk X (map fst vals)); [|reflexivity].
+  destruct (chain_callk X (map fst vals)) as [ks|] eqn:K; [|reflexivity].
   rewrite mk_const_sample, dlook_map.
   rewrite (chain_apply_ext X (fun c' => usample w c' t) (dlook vals)) by (intros; apply cvd_sample; auto).
-  destruct (cmem c (chain_out X (map fst vals))) eqn:M.
+  destruct (cmem c ks) eqn:M.
   - apply chain_apply_ext. intros k. unfold dlook. reflexivity.
-  - symmetry. apply (chain_supp X _ _ (dlook_supp vals)); auto.
+  - symmetry. apply (chain_call_supp X _ _ _ K (dlook_supp vals)); auto.
 Qed.
 Lemma with_global_sample w X c t : usample (with_global w X) c t = chain_apply X (fun c' => usample w c' t) c.
 Proof. destruct X; [reflexivity|]. apply from_transformation_sample. Qed.
